@@ -131,6 +131,30 @@ def check_object(ctx, g, n, abstract, where, hist):
                 fails.append((i, "get_known_values not NaN"))
     if bool(g.full) != (len([i for i in range(N) if i in abstract.m]) == N):
         fails.append(("full",))
+    # the multi-coalition getters, handed the subset in every iterable shape the package itself uses (lists, tuples, one-shot
+    # generators / iterators / filter objects): an unknown coalition in the subset must never come back as a value
+    rng = ctx.rng
+    ids = list(range(N))
+    for _ in range(2):
+        sub = rng.sample(ids, rng.randint(1, min(N, 4)))
+        shapes = {"list": lambda: [Coalition(i) for i in sub], "tuple": lambda: tuple(Coalition(i) for i in sub),
+                  "generator": lambda: (Coalition(i) for i in sub), "iterator": lambda: iter([Coalition(i) for i in sub]),
+                  "filter": lambda: filter(lambda c_: True, [Coalition(i) for i in sub])}
+        all_known = all(i in abstract.m for i in sub)
+        for name, mk in shapes.items():
+            try:
+                got = [float(x) for x in g.get_values(mk())]
+                if not all_known:
+                    fails.append((tuple(sub), f"get_values({name}) returned {got} although a requested coalition is unknown"))
+                elif got != [float(abstract.m[i]) for i in sub]:
+                    fails.append((tuple(sub), f"get_values({name}) returned {got}, known values are {[float(abstract.m[i]) for i in sub]}"))
+            except ValueError:
+                if all_known:
+                    fails.append((tuple(sub), f"get_values({name}) raised although every requested coalition is known"))
+            kv = [float(x) for x in g.get_known_values(mk())]
+            want = [float(abstract.m[i]) if i in abstract.m else float("nan") for i in sub]
+            if len(kv) != len(want) or any((a != b) and not (math.isnan(a) and math.isnan(b)) for a, b in zip(kv, want)):
+                fails.append((tuple(sub), f"get_known_values({name}) returned {kv}, expected {want}"))
     if fails:
         ctx.violation(f"object state contradicts its operation history ({where}): {fails[:3]}",
                       {"n": n, "history": [list(map(str, o)) for o in hist], "failures": str(fails[:6])})
